@@ -723,7 +723,7 @@ Proof. intros P H. unfold comp_vals in *. eapply mapM_perm; eauto. Qed.
 Lemma heval_perm d rows2 g1 g2 h : Permutation g1 g2 -> forall v,
   heval d g1 h = Ok v -> heval (mkD (d_ids d) (d_ms d) rows2) g2 h = Ok v.
 Proof.
-  intros P. induction h as [op c| |v0|op a IHa b IHb]; intros v H; simpl in *.
+  intros P. induction h as [op c| |v0|op a IHa b IHb|op a IHa]; intros v H; simpl in *.
   - destruct (is_stddev op); [discriminate|]. apply bind_ok in H. destruct H as [l1 [H1 H2]].
     destruct (comp_vals_perm d rows2 c _ _ _ P H1) as [l2 [H3 P2]]. rewrite H3. simpl.
     rewrite <- (agg_vals_perm _ _ _ P2). exact H2.
@@ -733,6 +733,7 @@ Proof.
   - exact H.
   - apply bind_ok in H. destruct H as [x [Hx H]]. apply bind_ok in H. destruct H as [y [Hy H]].
     rewrite (IHa _ Hx). simpl. rewrite (IHb _ Hy). simpl. exact H.
+  - apply bind_ok in H. destruct H as [x [Hx H]]. rewrite (IHa _ Hx). simpl. exact H.
 Qed.
 
 Lemma having_ok_perm d rows2 hav g1 g2 b : Permutation g1 g2 ->
@@ -817,8 +818,13 @@ Proof. destruct op; (left; reflexivity) || (right; discriminate). Qed.
 
 Lemma d_aggr_noncount op d g hav : op <> ACount ->
   d_aggr op d g hav = if is_nil (d_ms d) && negb (is_minmax op) then Err "1-1-1-8"%string
+                      else if is_nil (d_ms d) && is_nil (group_ids (d_ids d) g)
+                           then bind (check_grouping d g) (fun _ => Err "1-1-1-8"%string)
                       else aggregate d g (is_nil (d_ids d)) hav (d_ms d) (d_aggr_meas op d).
 Proof. intros H. destruct op; try reflexivity. contradiction H; reflexivity. Qed.
+
+Lemma bind_err_never_ok {A B} (r : res A) (c : string) (b : B) : bind r (fun _ => Err c) = Ok b -> False.
+Proof. destruct r; simpl; discriminate. Qed.
 
 Lemma d_aggr_count d g hav :
   d_aggr ACount d g hav = aggregate d g (is_nil (d_ids d)) hav ["int_var"%string] (d_count_meas d g).
@@ -833,7 +839,8 @@ Lemma d_aggr_skeleton op d g hav d' :
 Proof.
   intros H. destruct (aggop_count_dec op) as [->|Hn].
   - rewrite d_aggr_count in H. eauto 8.
-  - rewrite (d_aggr_noncount _ _ _ _ Hn) in H. destruct (is_nil (d_ms d) && negb (is_minmax op)); [discriminate|]. eauto 8.
+  - rewrite (d_aggr_noncount _ _ _ _ Hn) in H. destruct (is_nil (d_ms d) && negb (is_minmax op)); [discriminate|].
+    destruct (is_nil (d_ms d) && is_nil (group_ids (d_ids d) g)); [exfalso; eapply bind_err_never_ok; exact H|]. eauto 8.
 Qed.
 
 Lemma is_nil_false {A} (l : list A) : l <> [] -> is_nil l = false.
@@ -950,6 +957,7 @@ Proof.
     intros g1 g2 ms Pg. unfold d_count_meas. simpl. rewrite (count_all_perm _ _ Pg). auto.
   - rewrite (d_aggr_noncount _ _ _ _ Hn) in H. rewrite (d_aggr_noncount _ _ _ _ Hn). cbn [d_ms d_ids].
     destruct (is_nil (d_ms d) && negb (is_minmax op)); [discriminate H|].
+    destruct (is_nil (d_ms d) && is_nil (group_ids (d_ids d) g)); [exfalso; eapply bind_err_never_ok; exact H|].
     eapply (aggregate_perm d rows2 g _ hav _ (d_aggr_meas op d) (d_aggr_meas op (mkD (d_ids d) (d_ms d) rows2))); eauto.
     intros g1 g2 ms Pg Hm. change (d_aggr_meas op d g2 = Ok ms). rewrite <- (d_aggr_meas_perm op d _ _ Pg). exact Hm.
 Qed.
@@ -1032,3 +1040,16 @@ Qed.
 
 Lemma group_by_keys_distinct proj rows : kuniq (map fst (group_by proj rows)) = true.
 Proof. unfold group_by. rewrite map_map. simpl. rewrite map_id. apply nub_kuniq. Qed.
+
+(* min / max over an operand without measures and with no grouping identifier left is rejected (never a dataset) *)
+Lemma d_aggr_minmax_no_component op d g hav :
+  (op = AMin \/ op = AMax) -> d_ms d = [] -> group_ids (d_ids d) g = [] ->
+  (check_grouping d g = Ok tt -> d_aggr op d g hav = Err "1-1-1-8"%string) /\ (forall d', d_aggr op d g hav <> Ok d').
+Proof.
+  intros Hop Hm Hg.
+  assert (E : d_aggr op d g hav = bind (check_grouping d g) (fun _ => Err "1-1-1-8"%string)).
+  { destruct Hop as [-> | ->]; unfold d_aggr; rewrite Hm, Hg; reflexivity. }
+  split.
+  - intros Hc. rewrite E, Hc. reflexivity.
+  - intros d' H. rewrite E in H. eapply bind_err_never_ok; exact H.
+Qed.
